@@ -37,6 +37,27 @@ def pl_type(name):
             "Date": pl.Date, "Datetime": pl.Datetime("us"), "Null": pl.Null}[name]
 
 
+REC = []          # (cache object, node, result) of every Cache.requires_subquery call (L2 tie)
+_PATCHED = False
+
+
+def patch_requires_subquery():
+    """Observe the decisions of the real Cache.requires_subquery without touching /repo: wrap the
+    class attribute in this process."""
+    global _PATCHED
+    if _PATCHED:
+        return
+    from pydiverse.transform._internal.pipe.cache import Cache
+    orig = Cache.requires_subquery
+
+    def rec(self, node):
+        r = orig(self, node)
+        REC.append((self, node, r))
+        return r
+    Cache.requires_subquery = rec
+    _PATCHED = True
+
+
 class Outcome:
     """Result of instantiating a pipe on one backend."""
 
@@ -47,6 +68,7 @@ class Outcome:
         self.table = None        # final table
         self.points = {}         # "<pid>@<k>" -> table
         self.sources = {}        # id(TableImpl) -> source name
+        self.decisions = {}      # "<pid>@<k>" -> (verb node as first tested, reason or None)
 
 
 class Instantiator:
@@ -196,7 +218,16 @@ class Instantiator:
         self.out.points[f"{p['id']}@0"] = tbl
         for i, st in enumerate(p["steps"], 1):
             try:
-                tbl = self.step(tbl, st)
+                n0 = len(REC)
+                prev_cache = tbl._cache
+                try:
+                    tbl = self.step(tbl, st)
+                finally:
+                    for cch, node, r in REC[n0:]:
+                        if cch is prev_cache:
+                            self.out.decisions[f"{p['id']}@{i}"] = (node, r)
+                            break
+                    del REC[n0:]
             except _Abort:
                 raise
             except (KeyboardInterrupt, SystemExit):
